@@ -73,7 +73,7 @@ def run_shard(spec, emit):
 def _instance(emit, name, rng, base, first):
     n = int(rng.integers(4, 25))
     p = int(rng.integers(1, 14))
-    xkind = str(rng.choice(["gauss", "scaled", "shifted", "ar", "centered"]))
+    xkind = str(rng.choice(["gauss", "scaled", "shifted", "ar", "centered", "contrast"]))
     X = C.make_X(rng, n, p, xkind, rho=0.95, density=float(rng.choice([1.0, 0.4])))
     if rng.random() < 0.4:
         X = sprinkle_empty_columns(rng, X)
